@@ -276,6 +276,15 @@ def edited_hosts(tier):
             return tuple(ren(x) if isinstance(x, tuple) else x for x in g)
         c['previous'] = {'formula': ren(from_json(p['formula'])), 'subs': [ren(from_json(s)) for s in p['subs']],
                          'mode': mode}
+        used_new = [v for v in c['vars'] if v in F.fvars(from_json(c['formula']))]
+        others = [v for v in c['vars'] if v not in used_new[:1]]
+        if mode == 'reparse' and used_new and others and draw(st.integers(0, 3)) == 0:
+            # a signal of the new text was a requirement name of the previous text, which talks about the other variables
+            v0 = used_new[0]
+            rename = dict(zip(p['vars'], others * len(p['vars'])))
+            target = others
+            c['previous'] = {'formula': ren(from_json(p['formula'])), 'subs': [ren(from_json(s)) for s in p['subs']],
+                             'mode': mode, 'signal_was_requirement': v0}
         return c
     return mk()
 
